@@ -30,14 +30,26 @@
 (*                       the dispatch, i.e. on every branch                                     *)
 (*   "secretValidity"  - patches/C04-2: the secret branch requires mapping.IsValid()            *)
 (*   "bindMapping"     - patches/C04-3: joining an existing / remotely waiting tunnel requires   *)
-(*                       the presented mapping id to be the tunnel's mapping id                 *)
+(*                       the presented mapping id to be the tunnel's mapping id (checked by      *)
+(*                       handleTunnelOpen / handleExistingBridge on what exists AT ARRIVAL)      *)
+(*   "bindMappingPoll" - patches/C04-3, second half: the same comparison in                      *)
+(*                       processCrossNodeForward, i.e. on the record that lookupTunnelRouting    *)
+(*                       finds while it POLLS (request arrived before the tunnel was registered)  *)
+(*                                                                                              *)
+(* Tunnel states "lateLocal" / "lateRemote": no bridge and no routing record when the request    *)
+(* arrives; the legitimate source registers the tunnel (on the same / on another node) while    *)
+(* the request is being served.  A validated request that is not the mapping's listen client     *)
+(* sits in handleTargetBridge -> handleCrossNodeTargetConnection -> lookupTunnelRouting (polls   *)
+(* up to 10 s): action PollFound, with the mapping comparison as its explicit first step.        *)
+(* Credential "otherSecret": id + secret of a third mapping M3 whose TARGET client is the        *)
+(* stranger - valid credentials that pass the validation and do not make the presenter a source. *)
 EXTENDS Naturals, Sequences, FiniteSets, TLC, Json
 
 CONSTANTS FIXES,     \* see above
           Idents,    \* subset of {"none", "noneHs", "listen", "target", "stranger"}
-          Creds,     \* subset of {"idOnly", "rightSecret", "wrongSecret", "resume", "nothing", "otherId"}
+          Creds,     \* subset of {"idOnly", "rightSecret", "wrongSecret", "resume", "nothing", "otherId", "otherSecret"}
           MStates,   \* subset of {"active", "revoked", "expired", "inactive", "missing"}
-          TStates,   \* subset of {"none", "waiting", "served", "remote"}
+          TStates,   \* subset of {"none", "waiting", "served", "remote", "lateLocal", "lateRemote"}
           Orders,    \* subset of {"legitFirst", "reqFirst"}
           Masked,    \* BOOLEAN: invariants hold "or a named deviation fired" (as-found tree)
           Emit       \* BOOLEAN: print one behaviour per cell
@@ -55,8 +67,10 @@ VARIABLES cell,   \* the cell of the product this behaviour runs
           ent,    \* who -> BOOLEAN  ghost: the property's predicate at the time of the request
           opened, \* set of connections that sent their TunnelOpen
           dev,    \* ghost: named deviations that fired
+          poll,   \* connection waiting in lookupTunnelRouting (None: nobody)
           hist    \* the steps taken (behaviour handed to the driver)
-vars == <<cell, pc, mst, br, ack, att, got, ent, opened, dev, hist>>
+vars == <<cell, pc, mst, br, ack, att, got, ent, opened, dev, poll, hist>>
+Late == {"lateLocal", "lateRemote"}
 
 NoBridge == [node |-> None, map |-> None, src |-> None, tgt |-> None, live |-> None, xn |-> None]
 
@@ -67,12 +81,13 @@ Prof(w) == CASE w = "S" -> [id |-> "listen", cred |-> "idOnly"]
              [] w = "R" -> [id |-> cell.id, cred |-> cell.cred]
 
 \* mapping named in the request ("nothing" carries the tunnel id only)
-Pres(p) == IF p.cred = "otherId" THEN "M2" ELSE IF p.cred = "nothing" THEN None ELSE "M"
+Pres(p) == IF p.cred = "otherId" THEN "M2" ELSE IF p.cred = "otherSecret" THEN "M3"
+           ELSE IF p.cred = "nothing" THEN None ELSE "M"
 
-MExists(m)     == m = "M2" \/ (m = "M" /\ mst # "missing")
-MValid(m)      == m = "M2" \/ (m = "M" /\ mst = "active")               \* PortMapping.IsValid
+MExists(m)     == m \in {"M2", "M3"} \/ (m = "M" /\ mst # "missing")
+MValid(m)      == m \in {"M2", "M3"} \/ (m = "M" /\ mst = "active")     \* PortMapping.IsValid
 IsListen(i, m) == (m = "M" /\ i = "listen") \/ (m = "M2" /\ i = "stranger")
-IsTarget(i, m) == m = "M" /\ i = "target"
+IsTarget(i, m) == (m = "M" /\ i = "target") \/ (m = "M3" /\ i = "stranger")
 
 HasCtl(i) == i # "none"                                  \* a handshake registered a control connection
 Authd(i)  == i \in {"listen", "target", "stranger"}      \* ... and the key was proven (client id set)
@@ -85,7 +100,7 @@ Validate(p) ==
   /\ Authd(p.id)                       \* conn.GetClientID() = 0 -> "client not authenticated"
   /\ CASE p.cred \in {"idOnly", "otherId"} ->      \* mapping id, empty secret: conncode.ValidateMapping
             MExists(m) /\ MValid(m) /\ IsListen(p.id, m)
-       [] p.cred = "rightSecret" ->                 \* secret branch: party of the mapping + equal secret
+       [] p.cred \in {"rightSecret", "otherSecret"} ->  \* secret branch: party of the mapping + equal secret
             MExists(m) /\ (IsListen(p.id, m) \/ IsTarget(p.id, m))
                        /\ ("secretValidity" \in FIXES => MValid(m))
        [] OTHER -> FALSE                            \* wrong secret / no credential at all
@@ -97,14 +112,16 @@ EntM(p) == /\ Authd(p.id) /\ mst = "active"
            /\ \/ p.id = "listen" /\ p.cred \in {"idOnly", "rightSecret", "wrongSecret", "resume"}  \* presents the mapping id
               \/ p.id \in {"listen", "target"} /\ p.cred = "rightSecret"                         \* presents the secret
 Entitled(p, tm) == IF p.cred = "otherId" THEN p.id = "stranger" /\ tm \in {None, "M2"}
+                   ELSE IF p.cred = "otherSecret" THEN p.id = "stranger" /\ tm \in {None, "M3"}
                    ELSE EntM(p) /\ tm \in {None, "M"}
 
 \* ------------------------------------------------------------------------------------------
 \* the script of a cell
 OpenStep(w, n) == [op |-> "Open", who |-> w, node |-> n]
 Script(c) ==
-  LET rn    == IF c.ts = "remote" THEN "B" ELSE "A"
+  LET rn    == IF c.ts \in {"remote", "lateRemote"} THEN "B" ELSE "A"
       build == CASE c.ts = "none"    -> <<>>
+                 [] c.ts \in Late    -> <<OpenStep("S", "A"), [op |-> "Resolve", who |-> "R"]>>
                  [] c.ts = "waiting" -> <<OpenStep("S", "A")>>
                  [] c.ts = "remote"  -> <<OpenStep("S", "A")>>
                  [] c.ts = "served"  -> <<OpenStep("S", "A"), OpenStep("T", "A")>>
@@ -115,7 +132,11 @@ Script(c) ==
 Step == Script(cell)[pc]
 Running == pc <= Len(Script(cell))
 
+\* the late classes are "request first" by construction, and the tunnel can only appear late if
+\* its mapping is active (the legitimate source is refused otherwise: that is the "none" state)
 Init == /\ cell \in [id : Idents, cred : Creds, ms : MStates, ts : TStates, ord : Orders]
+        /\ cell.ts \in Late => (cell.ord = "reqFirst" /\ cell.ms = "active")
+        /\ poll = None
         /\ pc = 1 /\ mst = "active" /\ br = NoBridge
         /\ ack = [w \in Who |-> "none"] /\ att = [w \in Who |-> "none"]
         /\ got = [w \in Who |-> FALSE] /\ ent = [w \in Who |-> FALSE]
@@ -135,6 +156,7 @@ Done(w, n, via, a, at, e, d, b) ==
   /\ dev' = dev \cup d /\ br' = b
   /\ hist' = Append(hist, Rec(w, n, via) @@ [exp |-> [ack |-> a, att |-> at]])
   /\ pc' = pc + 1 /\ UNCHANGED <<cell, mst, got>>
+  /\ poll' = IF via = "NewBridge:TargetBridge:polling" THEN w ELSE poll
 
 \* --- the validation moved in front of the dispatch (patches/C04-1) refuses ------------------
 RefusedBeforeDispatch(w, n) ==
@@ -181,28 +203,57 @@ NewBridge(w, n) ==
               Done(w, n, "NewBridge:SourceBridge", "ok", "src", e,
                    IF e THEN {} ELSE {"secretNoValidity"},
                    [node |-> n, map |-> m, src |-> w, tgt |-> None, live |-> None, xn |-> None])
-         ELSE \* TargetBridge: no bridge -> cross-node lookup finds no record -> error after the
-              \* success ack; nothing is attached
-              Done(w, n, "NewBridge:TargetBridge", "ok", "none", e,
-                   IF e THEN {} ELSE {"secretNoValidity"}, br)
+         ELSE \* TargetBridge: no bridge -> handleCrossNodeTargetConnection -> lookupTunnelRouting
+              \* polls for a record.  In the late classes one appears (PollFound); otherwise the
+              \* lookup ends with an error after the success ack and nothing is attached
+              Done(w, n, IF cell.ts \in Late /\ w = "R" THEN "NewBridge:TargetBridge:polling" ELSE "NewBridge:TargetBridge",
+                   "ok", "none", e, IF e THEN {} ELSE {"secretNoValidity"}, br)
 
 Open == /\ Running /\ Step.op = "Open"
         /\ LET w == Step.who n == Step.node IN
            \* the legitimate target is told to connect only once a bridge exists
            IF w = "T" /\ br.node = None
              THEN /\ pc' = pc + 1 /\ hist' = Append(hist, [op |-> "Skip", who |-> w])
-                  /\ UNCHANGED <<cell, mst, br, ack, att, got, ent, opened, dev>>
+                  /\ UNCHANGED <<cell, mst, br, ack, att, got, ent, opened, dev, poll>>
              ELSE \/ RefusedBeforeDispatch(w, n)
                   \/ ExistingBridge(w, n)
                   \/ CrossNodeTarget(w, n)
                   \/ NewBridge(w, n)
+
+\* --- the polling request sees the record the legitimate source registered meanwhile -----------
+\* processCrossNodeForward: (1) mapping comparison [patches/C04-3], (2) record of this node ->
+\* handleLocalBridgeWait -> SetTarget; record of another node -> ForwardToSourceNode.  The
+\* success ack went out before the poll, so a refusal here is an error without a second ack.
+ResolveRec(w, a) == [op |-> "Resolve", who |-> w, exp |-> [ack |-> ack[w], att |-> a]]
+Resolve ==
+  /\ Running /\ Step.op = "Resolve"
+  /\ LET w == Step.who p == Prof(w) n == IF cell.ts = "lateRemote" THEN "B" ELSE "A" IN
+     IF poll # w
+       THEN \* the request was refused, or created the bridge itself: nothing is pending
+            /\ hist' = Append(hist, ResolveRec(w, att[w]))
+            /\ UNCHANGED <<br, att, ent, dev>>
+       ELSE IF br.node = None                                        \* PollTimeout
+         THEN /\ hist' = Append(hist, ResolveRec(w, "none")) /\ UNCHANGED <<br, att, ent, dev>>
+       ELSE IF "bindMappingPoll" \in FIXES /\ Pres(p) # br.map      \* PollFound, step (1)
+         THEN /\ hist' = Append(hist, ResolveRec(w, "none"))
+              /\ ent' = [ent EXCEPT ![w] = Entitled(p, None)] /\ UNCHANGED <<br, att, dev>>
+       ELSE LET e == Entitled(p, br.map)                             \* PollFound, step (2)
+                a == IF br.node = n THEN "tgt" ELSE "fwd" IN
+              /\ att' = [att EXCEPT ![w] = a]
+              /\ ent' = [ent EXCEPT ![w] = e]
+              /\ dev' = dev \cup (IF e THEN {} ELSE {"pollNoMappingCheck"})
+              /\ br' = IF a = "tgt" THEN [br EXCEPT !.tgt = w, !.live = IF br.live = None /\ br.xn = None THEN w ELSE @]
+                                    ELSE [br EXCEPT !.xn = w]
+              /\ hist' = Append(hist, ResolveRec(w, a))
+  /\ poll' = None /\ pc' = pc + 1
+  /\ UNCHANGED <<cell, mst, ack, got, opened>>
 
 \* the mapping reaches the state of the cell (revoked / expired / deactivated / deleted through
 \* the real services) - before the requester arrives
 SetMap == /\ Running /\ Step.op = "SetMap"
           /\ mst' = cell.ms /\ pc' = pc + 1
           /\ hist' = Append(hist, [op |-> "SetMap", ms |-> cell.ms])
-          /\ UNCHANGED <<cell, br, ack, att, got, ent, opened, dev>>
+          /\ UNCHANGED <<cell, br, ack, att, got, ent, opened, dev, poll>>
 
 \* every attached end writes a marker; bytes of the source go to the cross-node forwarder if
 \* one is attached, else to the target the copy loops started with; bytes of that end go to the
@@ -215,9 +266,9 @@ Marker == /\ Running /\ Step.op = "Marker"
              /\ got' = g /\ pc' = pc + 1
              /\ hist' = Append(hist, [op |-> "Marker", exp |-> g])
              /\ Out([cell |-> cell, steps |-> hist', dev |-> dev])
-          /\ UNCHANGED <<cell, mst, br, ack, att, ent, opened, dev>>
+          /\ UNCHANGED <<cell, mst, br, ack, att, ent, opened, dev, poll>>
 
-Next == Open \/ SetMap \/ Marker
+Next == Open \/ SetMap \/ Resolve \/ Marker
 Spec == Init /\ [][Next]_vars
 
 \* ------------------------------------------------------------------------------------------
@@ -226,7 +277,7 @@ TypeOK == /\ pc \in 1..(Len(Script(cell)) + 1)
           /\ \A w \in Who : ack[w] \in {"none", "ok", "fail"} /\ att[w] \in {"none", "src", "tgt", "fwd"}
           /\ br.node \in {None, "A", "B"}
 
-Known == {"existingBridgeNoCheck", "crossNodeNoCheck", "secretNoValidity"}
+Known == {"existingBridgeNoCheck", "crossNodeNoCheck", "secretNoValidity", "pollNoMappingCheck"}
 Mask  == Masked /\ dev \cap Known # {}
 
 \* attached (as source, as target, through another node) only if authenticated and entitled
